@@ -64,6 +64,16 @@ func hasProp(f *FuncSpec, prop string) bool {
 			return true
 		}
 	}
+	for _, p := range f.FrameProps {
+		if p == prop {
+			return true
+		}
+	}
+	for _, p := range f.Deterministic {
+		if p == prop {
+			return true
+		}
+	}
 	check := func(cs []Clause) bool {
 		for _, c := range cs {
 			for _, p := range c.Props {
@@ -283,6 +293,17 @@ func cmdCheck(args []string) int {
 		}
 		fmt.Println(line)
 		oc.violations = append(oc.violations, id)
+	}
+	// The proof could not be attempted for part of the code (construct outside the subset, contract that no longer
+	// matches the code): nothing is claimed, but a failing input found on the real code is still a violation.
+	if len(oc.undecided) > 0 && len(oc.violations) == 0 {
+		if found, wit := e.findFailingInput(prop, "undecided", nil, *tier, seed); found {
+			rp := filepath.Join(replayDir, fmt.Sprintf("%s_undecided.json", prop))
+			o := &Obligation{ID: "undecided", GoalText: "proof not attempted: " + strings.Join(oc.undecided, "; "), Status: "undecided", Output: strings.Join(oc.undecided, "\n")}
+			writeReplay(rp, prop, "undecided (contracts do not match the code); failing input found by the witness family", []*Obligation{o}, true, wit)
+			fmt.Printf("VIOLATION property=%s replay=%s\n", prop, rp)
+			oc.violations = append(oc.violations, "undecided+failing-input")
+		}
 	}
 	for _, u := range oc.undecided {
 		fmt.Printf("UNDECIDED property=%s reason=%s\n", prop, u)
